@@ -81,12 +81,17 @@ class Gen:
             rep_ids = [r.choice(['r', 's', 't']) + str(k) for k in range(abs(reps))]
         parent = [r.choice(['p', 'q'])] if r.random() < 0.3 else []
         newkeys = {dict(kmap).get(k, k) for k in keys}
-        return {'sub': {'body': body, 'reps': reps, 'qmap': qmap, 'kmap': kmap, 'rep_ids': rep_ids, 'parent_path': parent}}, newkeys
+        node = {'sub': {'body': body, 'reps': reps, 'qmap': qmap, 'kmap': kmap, 'rep_ids': rep_ids, 'parent_path': parent}}
+        if keys_avail and not has_meas and r.random() < 0.3 and count_ops([[node]]) > 0:
+            # (a controlled sub-circuit that unrolls to nothing still reads its key: degenerate, not generated)
+            # a classically controlled sub-circuit (only allowed without measurements inside): the condition is written outside of it
+            node['sub']['conds'] = [{'key': {'path': [], 'name': r.choice(sorted(keys_avail))}, 'index': r.choice([-1, -1, 0])}]
+        return node, newkeys
 
     def scoped_template(self, code=None):
         """depth-3 nesting exercising key scoping: loops with repetition ids (and sometimes parent paths / key maps) at two levels, a
         measurement in the middle (or outer) body and a condition on it in the innermost sub-circuit; optionally the same key name is
-        also measured in an outer scope.  With `code` (an integer) the 11 binary options are taken from its bits, so that the whole
+        also measured in an outer scope.  With `code` (an integer) the 13 binary options are taken from its bits, so that the whole
         option space can be enumerated."""
         r = self.rng
         bits = [None]
@@ -122,6 +127,10 @@ class Gen:
                             'parent_path': parent or []}}
 
         inner = loop([[cond(2)], [u(2)]], 2 if flag(1 / 3) else 1, 'i' if flag(0.5) else None)
+        if flag(0.3):
+            # the innermost sub-circuit is itself classically controlled (by the key of the enclosing scopes): its own
+            # conditions must still be rescoped to the current iteration
+            inner['sub']['conds'] = [{'key': {'path': [], 'name': name}, 'index': -1}]
         mid_body = [[u(0)], [meas(0)], [inner]]
         if flag(0.3):
             mid_body.insert(0, [cond(1)])  # refers to an outer measurement (or stays external)
@@ -196,25 +205,35 @@ class Builder:
         co = cirq.CircuitOperation(fc, **kwargs)
         if s['parent_path']:
             co = cirq.with_key_path_prefix(co, tuple(s['parent_path']))
+        if s.get('conds'):
+            co = co.with_classical_controls(*[cirq.KeyCondition(self.key(c['key']), c['index']) for c in s['conds']])
         return co
 
     def describe(self, op):
         """flat cirq op -> descriptor comparable with the Lean FlatOp"""
         cirq = self.cirq
         ident = [t[1] for t in op.tags if isinstance(t, tuple) and t and t[0] == 'id']
+        probe = op
+        while not ident and isinstance(probe.untagged, cirq.ClassicallyControlledOperation):
+            # a controlled sub-circuit decomposes into its operations wrapped once more: the identifying tag sits inside
+            probe = probe.untagged._sub_operation
+            ident = [t[1] for t in probe.tags if isinstance(t, tuple) and t and t[0] == 'id']
         i = ident[0] if ident else -1
-        if i == -1 and op.gate is not None and hasattr(op.gate, 'exponent'):
+        core = op.untagged
+        while isinstance(core, cirq.ClassicallyControlledOperation):
+            core = core._sub_operation.untagged
+        if i == -1 and core.gate is not None and hasattr(core.gate, 'exponent'):
             # inversion drops tags: identify the operation by its (unique) exponent
             for gid, (kind0, par0) in self.gates.items():
-                if kind0 in ('xpow', 'czpow') and par0 != 1.0 and abs(abs(op.gate.exponent) - par0) < 1e-9 and \
-                        (kind0 == 'czpow') == (len(op.qubits) == 2):
+                if kind0 in ('xpow', 'czpow') and par0 != 1.0 and abs(abs(core.gate.exponent) - par0) < 1e-9 and \
+                        (kind0 == 'czpow') == (len(core.qubits) == 2):
                     i = gid
         conds = []
         base = op.untagged
-        if isinstance(base, cirq.ClassicallyControlledOperation):
-            for c in base.classical_controls:
+        while isinstance(base, cirq.ClassicallyControlledOperation):
+            for c in base._conditions:
                 conds.append({'key': {'path': list(c.key.path), 'name': c.key.name}, 'index': c.index})
-            base = base.without_classical_controls()
+            base = base._sub_operation.untagged
         mk = None
         if cirq.is_measurement(base):
             k = cirq.measurement_key_obj(base)
@@ -239,6 +258,34 @@ class Builder:
         if f['conds']:
             op = op.with_classical_controls(*[cirq.KeyCondition(self.key(c['key']), c['index']) for c in f['conds']])
         return op
+
+
+def count_ops(moments):
+    """number of operations the nodes unroll to"""
+    n = 0
+    for m in moments:
+        for x in m:
+            n += 1 if 'op' in x else abs(x['sub']['reps']) * count_ops(x['sub']['body'])
+    return n
+
+
+def fully_unrolled(cirq, circuit):
+    """unroll_circuit_op(deep), then expand classically controlled circuit operations (which it leaves alone) through their
+    decomposition - the controlled operation's conditions go in front of those of every operation of the body - and repeat"""
+    c = cirq.unroll_circuit_op(circuit, deep=True, tags_to_check=None)
+    for _ in range(12):
+        new, changed = [], False
+        for op in c.all_operations():
+            u = op.untagged
+            if isinstance(u, cirq.ClassicallyControlledOperation) and isinstance(u.without_classical_controls().untagged, cirq.CircuitOperation):
+                new.extend(cirq.decompose_once(u))
+                changed = True
+            else:
+                new.append(op)
+        if not changed:
+            return c
+        c = cirq.unroll_circuit_op(cirq.Circuit(new, strategy=cirq.InsertStrategy.NEW), deep=True, tags_to_check=None)
+    raise common.InfraError('controlled circuit operations do not unroll')
 
 
 def records_key(records):
@@ -304,13 +351,15 @@ def run(ctx: common.Run):
 
         # (1) structural: unroll_circuit_op(deep) = specified flat list
         try:
-            unrolled = cirq.unroll_circuit_op(wrapped, deep=True, tags_to_check=None)
+            unrolled = fully_unrolled(cirq, wrapped)
         except ValueError as e:
             ctx.count('unroll_error', str(e)[:50])
             continue
         got = [b.describe(op) for op in unrolled.all_operations()]
         ctx.count('check', 'structure')
-        if got != spec:
+        # the conditions of an operation are a conjunction (a frozenset in the implementation): compare them as sets
+        cset = lambda f: dict(f, conds=sorted({(tuple(c['key']['path']), c['key']['name'], c['index']) for c in f['conds']}))
+        if [cset(f) for f in got] != [cset(f) for f in spec]:
             report('unroll:structure', 'unroll_circuit_op(deep=True) differs from the specified unrolled form (qubits / key scoping / condition binding / order)', got, spec)
             continue
         spec_circuit = cirq.Circuit(b.flat_to_cirq(f) for f in spec)
@@ -387,8 +436,8 @@ def run(ctx: common.Run):
                                {'lines': [{'circuit': repr(wrapped), 'structure': moments}], 'impl_out': [sorted((repr(k), round(v, 8)) for k, v in got.items())],
                                 'spec_out': [sorted((repr(k), round(v, 8)) for k, v in want.items())], 'theorem_or_correspondence': 'wrap_eq_unroll (distribution)'})
 
-    # (5) the whole option space of the scoping template (12 binary options), structure and key queries only
-    codes = range(4096) if ctx.tier != 'quick' else [c for c in range(4096) if (c * 2654435761 + ctx.seed) % 4 == 0]
+    # (5) the whole option space of the scoping template (13 binary options), structure and key queries only
+    codes = range(8192) if ctx.tier != 'quick' else [c for c in range(8192) if (c * 2654435761 + ctx.seed) % 8 == 0]
     ecases = []
     for code in codes:
         g = Gen(rng)
@@ -398,7 +447,7 @@ def run(ctx: common.Run):
         b = Builder(cirq, g.gates)
         try:
             wrapped = cirq.Circuit([cirq.Moment([b.node(x) for x in m]) for m in moments])
-            unrolled = cirq.unroll_circuit_op(wrapped, deep=True, tags_to_check=None)
+            unrolled = fully_unrolled(cirq, wrapped)
         except ValueError as e:
             ctx.count('scoped_enum', 'rejected: ' + str(e)[:40])
             continue
@@ -407,7 +456,8 @@ def run(ctx: common.Run):
         got = [b.describe(op) for op in unrolled.all_operations()]
         rep = {'lines': [{'circuit': repr(wrapped), 'structure': moments}], 'impl_out': [got], 'spec_out': [spec],
                'theorem_or_correspondence': 'Model.C12.unrollCircuit (wrap_eq_unroll), enumerated scoping template'}
-        if got != spec:
+        cset = lambda f: dict(f, conds=sorted({(tuple(c['key']['path']), c['key']['name'], c['index']) for c in f['conds']}))
+        if [cset(f) for f in got] != [cset(f) for f in spec]:
             ctx.report_witness('unroll:structure', 'unroll_circuit_op(deep=True) differs from the specified unrolled form (key scoping / condition binding)', rep)
             continue
         spec_circuit = cirq.Circuit(b.flat_to_cirq(f) for f in spec)
